@@ -34,11 +34,30 @@ GenesInside(sc, loc) == {g \in Genes(sc) : Contains(loc, sc.locs[g])}
 (* genes whose own hits satisfy the extender condition *)
 ExtSat(sc, r) == IF r.hasExt THEN {g \in Genes(sc) : Eval(SceneFor(sc, r), r.ext, g, TRUE)} ELSE {}
 
+(* the genes at the end of a core that faces a gene e outside it.  Positions are counted along the core from its outer
+   start (on a ring: round the ring from there).  Extension is measured from the gene at the end of the core; which gene
+   that is, is unambiguous unless genes are nested - so both the gene reaching furthest and the gene starting last (on the
+   leading side: reaching least far / starting first) are taken, and an extender has to be close to all of them *)
+EndGenes(sc, core, e) ==
+    LET R == RingOfScene(sc)
+        cs == OuterStart(core)
+        pos(x) == IF R.circ THEN (x - cs) % R.L ELSE x - cs
+        inside == GenesInside(sc, core)
+        first(g) == pos(OuterStart(sc.locs[g]))
+        last(g) == pos(OuterEnd(sc.locs[g]) - 1)
+        after == pos(OuterStart(sc.locs[e])) - Size(core)                       \* bases between the core's end and e
+        before == IF R.circ THEN R.L - 1 - pos(OuterEnd(sc.locs[e]) - 1) ELSE 0 - pos(OuterEnd(sc.locs[e]) - 1) - 1
+        trailing == IF R.circ THEN after <= before ELSE pos(OuterStart(sc.locs[e])) >= 0
+    IN  IF inside = {} THEN {}
+        ELSE IF trailing
+        THEN {g \in inside : last(g) = MaxOf({last(h) : h \in inside})} \cup {g \in inside : first(g) = MaxOf({first(h) : h \in inside})}
+        ELSE {g \in inside : first(g) = MinOf({first(h) : h \in inside})} \cup {g \in inside : last(g) = MinOf({last(h) : h \in inside})}
+
 (* core of a protocluster built from the chains Cs (a set of gene sets):
    without extenders: the connect-relation on exactly the chain's genes;
    with extenders: the connect-relation on the chain's genes plus some extender genes E, each
    reachable from the chain in steps of at most the cutoff through chain/extender genes; and no
-   extender gene that is closer than the cutoff to *every* gene inside the core may be left out *)
+   extender gene that is closer than the cutoff to the gene(s) at the end of the core facing it may be left out *)
 CoreFailed(sc, r, Cs, core) ==
     LET R == RingOfScene(sc)
         base == UNION Cs
@@ -61,7 +80,7 @@ CoreFailed(sc, r, Cs, core) ==
                    THEN {"core_is_smallest_span_of_group:" \o ConnectClause(R, LocsOf(sc, base), core)} ELSE {})
         ELSE (IF ~\E E \in SUBSET cands : okE(E) THEN {"core_is_span_of_group_plus_extenders"} ELSE {})
              \cup (IF \E e \in cands : /\ ~Contains(core, sc.locs[e])
-                                       /\ \A g \in GenesInside(sc, core) : Dist(R, sc.locs[e], sc.locs[g]) < r.cutoff
+                                       /\ \A g \in EndGenes(sc, core, e) : Dist(R, sc.locs[e], sc.locs[g]) < r.cutoff
                    THEN {"extender_within_cutoff_admitted"} ELSE {})
 
 (* the protocluster is the core extended by the neighbourhood on both sides: clipped on a line, wrapped
